@@ -4,9 +4,9 @@ import re
 
 from mc.oracles.misc import ELEMENTS, ORGANIC
 
-LEG_B = re.compile(r"^\[Branch([123])_([123])\]$")
-LEG_R = re.compile(r"^\[Expl([=#/\\])Ring([123])\]$")
-LEG_A = re.compile(r"^\[([=#/\\]?)(\d*)([A-Z][a-z]?)(@{0,2})(?:H(\d?))?((?:\++|-+|[+-]\d+)?)(?::\d+)?expl\]$")
+LEG_B = re.compile(r"^\[Branch([123])_([123])\]\Z")
+LEG_R = re.compile(r"^\[Expl([=#/\\])Ring([123])\]\Z")
+LEG_A = re.compile(r"^\[([=#/\\]?)(\d*)([A-Z][a-z]?)(@{0,2})(?:H(\d?))?((?:\++|-+|[+-]\d+)?)(?::\d+)?expl\]\Z")
 
 
 def modern(sym):
